@@ -33,6 +33,13 @@ def run(ctx):
                         S.append(sc)
                         if op in ("bulkget", "multiget") and pert == "none" and rnd.random() < 0.3:
                             S.append(dict(sc, again=True))        # the same list objects handed to a second call
+    # SET of zero-length strings, and of value objects the client itself handed out earlier
+    for proto in O.PROTOS:
+        for tag in ("OctetString", "Opaque"):
+            S.append(dict(op="set", oids=[[5, 1]], db=O.dbs(1)[-1], proto=proto, perturb="none", nr=0, mr=0, setvals=[[tag, -1]]))
+            S.append(dict(op="multiset", oids=[[5, 1], [5, 2]], db=O.dbs(1)[-1], proto=proto, perturb="none", nr=0, mr=0, setvals=[[tag, -1], ["Integer", 4]]))
+        for k in range(3):
+            S.append(dict(op="set", oids=[[5, 1]], db=O.dbs(k)[-1], proto=proto, perturb="none", nr=0, mr=0, setvals=[["Integer", 1]], fromget=True))
     # objects the library knows by name (the usmStats counters, 1.3.6.1.6.3.15.1.1.k.0) are ordinary MIB objects for every protocol level
     from absmap import VALUE_TYPES as VT
     sdb = [[[1, k2, 0], [VT[k2 % len(VT)], 40 + k2]] for k2 in range(1, 7)]
@@ -47,7 +54,7 @@ def run(ctx):
             S.append(sc)
     ctx.rule = ("every operation x every OID list of length 1..%d over {1, 1.1, 1.2, 2.1, 9} (duplicates, absent objects, beyond the end of the view) "
                 "x every database over {1.1, 1.2, 2.1} with rotating value types x v1/v2c/v3 levels x reply perturbation {none, extra binding, "
-                "dropped binding, oversize bulk, SET confirmed with other values than supplied}%s; every operation on the usmStats counters as ordinary objects over all levels; non-trivial = distinct scenario whose trace was accepted") % (2 if q else 3, " (sampled in quick)" if q else "")
+                "dropped binding, oversize bulk, SET confirmed with other values than supplied}%s; SET of zero-length strings and of value objects read earlier; repeated calls with the same list objects; every operation on the usmStats counters as ordinary objects over all levels; non-trivial = distinct scenario whose trace was accepted") % (2 if q else 3, " (sampled in quick)" if q else "")
     O.drive_and_judge(ctx, S)
     ctx.assumptions = ["BulkResult.scalars/listing are mappings: bindings with the same OID collapse (which value survives is not judged)",
                        "multigetnext may omit what follows the first endOfMibView; getnext at the end of the view must raise an SnmpError"]
